@@ -191,4 +191,16 @@ CHECKS = {
                 "(e) garbage to the local SOCKS5/HTTP port; (f) random, truncated-valid and authenticated-but-malformed datagrams to the server, malformed SOCKS5-UDP datagrams to the client. Afterwards a correct TCP flow and a correct local datagram must still be served and no main() may have returned. evaluations = inputs.",
         "real": REAL_SYSTEM, "stub": STUB_SYSTEM + ["hostile peers = harness + reference implementation"], "assumptions": ASSUME_SYSTEM + ["every other check runs with the same panic monitor and reports a panic as a violation of its own property", "allocation failure aborts instead of unwinding and is out of scope", "release build with shipping semantics (overflow-checks and debug-assertions off)"],
     },
+    "C09": {
+        "level": "exploration",
+        "parts": [{"gen": "C09", "quick": 640, "thorough": 12800, "quick_deadline_s": 420, "thorough_deadline_s": 3000},
+                  {"engine": "shuttle", "quick": 20000, "thorough": 1000000}],
+        "rule": "two engines. Task level (simnet): a batch of 2-8 (10%: 9-24, thorough -64) concurrent TCP flows through the real client and server over a cycling (protocol, cipher, tcp/tls/ws/wss) cell with drawn network knobs is run once all together "
+                "and once per flow alone (same seed, same slot); each flow's observable result (handshake, number of dials to its target, bytes and integrity each way, how each end saw it finish) must be identical. "
+                "Thread level (shuttle, hook H6): 2-4 threads under shuttle's seeded random and PCT schedulers each decode a reference-built Shadowsocks-2022 request with the real server-side decoder against one shared Context (salt cache): "
+                "the same request (at most one - and exactly one - acceptance), distinct requests (all accepted), a mix; never a panic. evaluations = flows compared + schedules; distinct = (plan, poll order) hashes + distinct thread orders.",
+        "real": REAL_SYSTEM + ["shuttle part: octo_squirrel::codec::shadowsocks::tcp::{Context, AEADCipherCodec} built from /repo's sources through a shadow manifest"],
+        "stub": STUB_SYSTEM + ["shuttle part: std::sync::Mutex of the salt cache -> shuttle::sync::Mutex; wall clock is the real one there"],
+        "assumptions": ASSUME_SYSTEM + ["real parallel execution of whole relay tasks on tokio's multi-thread scheduler is not covered: flows share no mutable state besides the salt cache (shuttle) and the UDP cipher cache", "the UDP cipher cache (a static LruCache mutated through a shared reference) is not covered at thread level"],
+    },
 }
